@@ -55,7 +55,7 @@ StringResult(page, p) == CASE page = "ok" -> [ok |-> TRUE, out |-> "page:ok"]
                            [] page \in {"dotS", "dotM"} -> [ok |-> TRUE, out |-> "page:dotcase"]           \* one template, a struct / a map behind the same property names
                            [] page = "setvar" -> [ok |-> TRUE, out |-> "page:setvar"]      \* rendered with nil data, assigns a top-level name
                            [] page = "getvar" -> [ok |-> FALSE, err |-> "identifier not found", at |-> p]   \* nil data, reads that name
-EvalResult(page) == IF page \in {"ok", "setvar", "row1", "row2"} THEN [ok |-> TRUE, out |-> "str:" \o page] ELSE [ok |-> FALSE, err |-> "runtime error", at |-> ""]
+EvalResult(page) == IF page \in {"ok", "setvar", "row1", "row2", "sameprintI", "sameprintS"} THEN [ok |-> TRUE, out |-> "str:" \o page] ELSE [ok |-> FALSE, err |-> "runtime error", at |-> ""]
 \* C17: which body Response writes
 BuiltinBody(c, r) == IF c.debug THEN [page |-> "builtin", shows |-> {r.err, r.at}] ELSE [page |-> "builtin", shows |-> {}]
 ResponseResult(c, r, custom) ==        \* r: result of String(name); custom: result of String(errorPage) or "none"
